@@ -701,3 +701,7 @@ def named_fee_explicit(ctx):
         ctx.require(end is not None and fee_ == 564, q, "fee='low' with %s inputs gives a fee of %s, expected int(141 / 1000 * 4000) = 564" % ('explicit' if explicit else 'selected', 'a refusal' if end is None else fee_), mid[0],
                     "transaction_create(outputs, input_arr=[...], fee='low') returns a transaction that pays no fee at all")
     ctx.floor(n, 2, 'named-fee scenarios')
+
+
+from . import c08 as _c08
+PROP.obligation('C07.outputs-numbered')(_c08.outputs_numbered)
